@@ -34,6 +34,7 @@ const (
 	tagExtCsum   = "ext4-extent-block-csum"
 	tagLongLink  = "ext4-symlink-target-over-block"
 	tagStaleLink = "ext4-symlink-stale-block"
+	tagTrail     = "ext4-write-trailing-empty-writes"
 )
 
 const MiB = int64(1 << 20)
@@ -54,7 +55,7 @@ func configs() []x.Config {
 	}
 }
 
-type defects struct{ skip, remove, leak, wrap, rmLink, extCsum, longLink, staleLink, stale bool }
+type defects struct{ skip, remove, leak, wrap, rmLink, extCsum, longLink, staleLink, stale, trail bool }
 
 type engine struct {
 	c    *hx.Ctx
@@ -272,6 +273,13 @@ func (e *engine) runHistory(h hist, scratch string) {
 				stop = true
 			} else {
 				fail(tagSkip, "panic "+out.panicked+" (an extent ends exactly at the start block and is not skipped)")
+			}
+		case out.trailNeg:
+			// the write was carried out in full and reported as failed: the tree has changed under a refused call
+			if e.fsck {
+				stop = true
+			} else {
+				fail(tagTrail, fmt.Sprintf("Write wrote every byte and returned an error: %v", out.refused))
 			}
 		case out.panicked != "":
 			if e.fsck {
